@@ -319,12 +319,23 @@ def mutualVersion (v : Nat) : Option Nat :=
   else if v > versionTLS12 then some versionTLS12
   else some v
 
+/-- the version test of the GMSSL server handshake (`serverHandshakeStateGM.readClientHello`, and
+    `processClientHelloGM` of the auto-switch server), repaired: `mv` is what `Config.mutualVersion` returned for
+    the client_version `v`; GMSSL 1.1 (0x0101) is the only version that handshake implements, so it goes on — at
+    `c.vers = 0x0101` — only if `mutualVersion` succeeded AND the client_version is 0x0101 AND the result is 0x0101
+    (a maximum below 0x0101 would clamp it); everything else gets a protocol_version alert.  Before the repair the
+    test was `mv ≠ none` alone and the handshake ran at whatever `mutualVersion` returned (0x0300..0x0303). -/
+def gmServerVersion (mv : Option Nat) (v : Nat) : Option Nat :=
+  match mv with
+  | none => none
+  | some w => if v = versionGMSSL ∧ w = versionGMSSL then some w else none
+
 /-- which handshake code serves a ClientHello with `client_version = v`, and at which connection version -/
 def dispatch : Mode → Nat → Path
-  | .gmOnly, v => match mutualVersion v with | none => .reject | some w => .gm w
+  | .gmOnly, v => match gmServerVersion (mutualVersion v) v with | none => .reject | some w => .gm w
   | .tlsOnly, v => match mutualVersion v with | none => .reject | some w => .tls w
   | .auto, v =>
-      if v = versionGMSSL then (match mutualVersion v with | none => .reject | some w => .gm w)
+      if v = versionGMSSL then (match gmServerVersion (mutualVersion v) v with | none => .reject | some w => .gm w)
       else if versionSSL30 ≤ v ∧ v ≤ versionTLS12 then (match mutualVersion v with | none => .reject | some w => .tls w)
       else .reject
 
@@ -452,10 +463,10 @@ def cfgMin (m : Nat) : Nat := if m = 0 then versionGMSSL else m
 def cfgMax (m : Nat) : Nat := if m = 0 then versionTLS12 else m
 
 def dispatchLim (lo hi : Nat) : Mode → Nat → Path
-  | .gmOnly, v => match mutualVersionLim lo hi v with | none => .reject | some w => .gm w
+  | .gmOnly, v => match gmServerVersion (mutualVersionLim lo hi v) v with | none => .reject | some w => .gm w
   | .tlsOnly, v => match mutualVersionLim lo hi v with | none => .reject | some w => .tls w
   | .auto, v =>
-      if v = versionGMSSL then (match mutualVersionLim lo hi v with | none => .reject | some w => .gm w)
+      if v = versionGMSSL then (match gmServerVersion (mutualVersionLim lo hi v) v with | none => .reject | some w => .gm w)
       else if versionSSL30 ≤ v ∧ v ≤ versionTLS12 then (match mutualVersionLim lo hi v with | none => .reject | some w => .tls w)
       else .reject
 
